@@ -140,7 +140,7 @@ fn run_pinned() -> i32 {
             sched_seed: seed,
             entropy_seed: seed * 7 + 1,
             clock_seed: seed * 3,
-            context: [Context::External, Context::InWorker, Context::Siblings][(seed % 3) as usize],
+            context: [Context::External, Context::InWorker, Context::Siblings, Context::Warm][(seed % 4) as usize],
             replay: None,
         };
         let a = run_sim(&e, probe);
